@@ -19,6 +19,7 @@ func init() {
 			"(R3) every error exit after the temporary exists removes it; " +
 			"(R4, who-may-write) encoding.MarshalAndSave persists only through WriteFileAtomic, passing the marshalled bytes only if marshalling succeeded, and contains no other file-creating call; packages synchronization, forwarding, endpoint/local and encoding contain no direct file-writing call at all (os.WriteFile/Create/OpenFile) — a positive control inside package filesystem shows the matcher works. " +
 			"(R5) filesystem.Rename itself replaces by renaming only — it never unlinks, removes or truncates the target before the rename; " +
+			"(R6) the bytes a marshal callback returns to MarshalAndSave are not derived from a package-level variable (the write happens after the callback returned, without a lock); " +
 			"Not decided: crash atomicity of rename(2) itself; durability (no fsync is claimed).",
 		Assumptions: []string{"rename(2) within one directory is atomic"},
 		Run:         runC27,
